@@ -940,6 +940,10 @@ fn cli_checks(ctx: &mut Ctx, rep: &mut Rep) {
         ("no-final-newline", flat.trim_end().as_bytes().to_vec()),
         ("empty", vec![]),
         ("nul-and-bom-inside", [b"{\"k\":\"a\"}\n\xEF\xBB\xBF{\"k\":\"b\"}\n\0\n".to_vec()].concat()),
+        // bytes that are not UTF-8: both ways in decode each line lossily
+        ("latin1-byte", b"{\"k\":\"caf\xE9\",\"n\":1}\nk=caf\xE9 n=2\nplain caf\xE9 line\n{\"k\":\"a\",\"n\":3}\n".to_vec()),
+        ("truncated-utf8-at-end", b"{\"k\":\"a\",\"n\":1}\nk=b n=2\nlast line ends inside a character \xE2\x82".to_vec()),
+        ("ff-fe-and-overlong", b"\xFF\xFE{\"k\":\"a\"}\n{\"k\":\"\xC0\xAF\",\"n\":2}\n\xF0\x9F\x98\n{\"k\":\"b\",\"n\":5}\n".to_vec()),
     ];
     for (vname, bytes) in &variants {
         let vpath = format!("{}/input-{}.log", dir, vname);
